@@ -47,7 +47,7 @@ let () = Reg.register "c03.tables" (fun inp out ->
        LR(0)-valid item sets and its lookahead table is stable, hence exactly LALR(1) *)
     (* C03_reference_is_LALR1 / C03_reference_views_are_LALR1_light: the automaton clauses of the certificate are theorems
        about build_automaton; what is still evaluated per grammar is ref_cert_light (grammar well-formed, work
-       list of build_loop empty, FIRST closed, la_fix stopped on a stable table).  The full certificate is only
+       list of build_loop empty, la_fix stopped on a stable table).  The full certificate is only
        evaluated when the light one fails. *)
     let certified = LalrDone.ref_cert_light g ref_fuel || LalrCert.ref_cert g ref_fuel in
     let verdict = if not certified then "bad:reference-construction-not-certified-LALR1" else classify (
